@@ -24,7 +24,7 @@ CHECKS = {
                  "non-trivial = tree reached height >= 2 AND a present key was deleted AND a bounded range query ran; distinct = distinct plan JSON. "
                  "kind 'concurrent' = generated (tree size, writer/reader key partition) run under -race"),
         "assumptions": TREE_ASSUME,
-        "jobs": [{"pkg": "c01tree", "run": "TestTreeModel", "kinds": ["treeplan"], "shards_quick": 4, "scale_quick": 0.3, "scale_thorough": 8, "shards_thorough": 16, "fuzz": [("FuzzTreeModel", "treeplan")]},
+        "jobs": [{"pkg": "c01tree", "run": "TestTreeModel", "kinds": ["treeplan"], "shards_quick": 4, "scale_quick": 0.3, "scale_thorough": 3, "shards_thorough": 16, "fuzz": [("FuzzTreeModel", "treeplan")]},
                  {"pkg": "c01tree", "run": "TestConcurrent", "race": True, "kinds": ["concurrent"], "shards_quick": 2, "scale_quick": 0.5,
                   "scale_thorough": 3, "shards_thorough": 8}],
     },
@@ -51,7 +51,7 @@ CHECKS = {
         "rule": ("same generator as C01 with the structural walk enabled (every elementary op up to 600 keys, every 16th above, always at op boundaries); "
                  "non-trivial = a node merge was observed (node count dropped) on a tree that reached height >= 3; distinct = distinct plan JSON"),
         "assumptions": TREE_ASSUME,
-        "jobs": [{"pkg": "c03shape", "kinds": ["shapeplan"], "shards_quick": 4, "scale_quick": 0.25, "scale_thorough": 6, "shards_thorough": 16, "fuzz": [("FuzzTreeShape", "shapeplan")]}],
+        "jobs": [{"pkg": "c03shape", "kinds": ["shapeplan"], "shards_quick": 4, "scale_quick": 0.25, "scale_thorough": 2, "shards_thorough": 16, "fuzz": [("FuzzTreeShape", "shapeplan")]}],
     },
     "C05": {
         "level": "exploration",
